@@ -423,23 +423,27 @@ type sendBufferItem struct {
 }
 
 func (s *clientSocket) emitBuffered() {
+	// Event handlers are user code: the buffer is taken under the mutex and the handlers run
+	// outside of it, so that a handler may connect, disconnect or receive further events.
 	s.receiveBufferMu.Lock()
-	defer s.receiveBufferMu.Unlock()
+	receiveBuffer := s.receiveBuffer
+	s.receiveBuffer = nil
+	s.receiveBufferMu.Unlock()
 
 	var (
 		// The reason we use this map is that we don't want to
 		// send acknowledgements with same IDs.
-		ackIDs = make(map[uint64]bool, len(s.receiveBuffer))
+		ackIDs = make(map[uint64]bool, len(receiveBuffer))
 		mu     sync.Mutex
 	)
 
-	for _, event := range s.receiveBuffer {
+	for _, event := range receiveBuffer {
 		if event.header.ID != nil {
 			ackIDs[*event.header.ID] = false
 		}
 	}
 
-	for _, event := range s.receiveBuffer {
+	for _, event := range receiveBuffer {
 		event := event
 
 		sendAck := func(ackID uint64, values []reflect.Value) {
@@ -478,7 +482,6 @@ func (s *clientSocket) emitBuffered() {
 			}
 		}
 	}
-	s.receiveBuffer = nil
 
 	s.sendBufferMu.Lock()
 	defer s.sendBufferMu.Unlock()
